@@ -32,6 +32,7 @@ import (
 	"go/parser"
 	"go/printer"
 	"go/token"
+	"go/types"
 	"os"
 	"path/filepath"
 	"reflect"
@@ -48,6 +49,103 @@ type inst struct {
 	yields  int
 	chans   map[string]bool // expression texts known to be channels
 	wgs     map[string]bool // expression texts known to be WaitGroups
+	info    *types.Info     // best-effort type information (may be nil / partial)
+}
+
+// stubImporter makes every import an empty package: type checking then fails
+// for imported identifiers (errors are ignored) but still resolves the
+// package's own declarations, which is enough to recognise maps and channels
+// held in local variables and struct fields.
+type stubImporter struct{}
+
+func (stubImporter) Import(path string) (*types.Package, error) {
+	name := path
+	if i := strings.LastIndex(path, "/"); i >= 0 {
+		name = path[i+1:]
+	}
+	p := types.NewPackage(path, name)
+	p.MarkComplete()
+	return p, nil
+}
+
+// typeInfo type-checks the package of file f (all non-test files of its directory).
+func typeInfo(fset *token.FileSet, name string, f *ast.File) *types.Info {
+	files := []*ast.File{f}
+	dir := filepath.Dir(name)
+	ents, _ := os.ReadDir(dir)
+	for _, e := range ents {
+		n := e.Name()
+		if !strings.HasSuffix(n, ".go") || strings.HasSuffix(n, "_test.go") || filepath.Join(dir, n) == name {
+			continue
+		}
+		if g, err := parser.ParseFile(fset, filepath.Join(dir, n), nil, parser.SkipObjectResolution); err == nil && g.Name.Name == f.Name.Name {
+			files = append(files, g)
+		}
+	}
+	info := &types.Info{Types: map[ast.Expr]types.TypeAndValue{}}
+	conf := types.Config{Importer: stubImporter{}, Error: func(error) {}, FakeImportC: true}
+	defer func() { recover() }()
+	conf.Check(f.Name.Name, fset, files, info)
+	return info
+}
+
+// mapRange reports whether x ranges over a map with an ordered basic key type.
+func (in *inst) mapRange(x *ast.RangeStmt) bool {
+	if in.info == nil || x.Key == nil {
+		return false
+	}
+	switch x.X.(type) { // re-evaluated in the rewritten loop: only side-effect free operands
+	case *ast.Ident, *ast.SelectorExpr:
+	default:
+		return false
+	}
+	tv, ok := in.info.Types[x.X]
+	if !ok || tv.Type == nil {
+		return false
+	}
+	m, ok := tv.Type.Underlying().(*types.Map)
+	if !ok {
+		return false
+	}
+	b, ok := m.Key().Underlying().(*types.Basic)
+	return ok && b.Info()&(types.IsString|types.IsInteger|types.IsFloat) != 0
+}
+
+func blank(e ast.Expr) bool {
+	if e == nil {
+		return true
+	}
+	i, ok := e.(*ast.Ident)
+	return ok && i.Name == "_"
+}
+
+// sortMapRange turns `for k, v := range m { body }` into an iteration over the
+// sorted key snapshot that skips keys deleted meanwhile (as Go's own iteration does).
+func (in *inst) sortMapRange(x *ast.RangeStmt) {
+	in.changed = true
+	in.n++
+	kv := id(fmt.Sprintf("_vsk%d", in.n))
+	okv := id(fmt.Sprintf("_vsok%d", in.n))
+	var head []ast.Stmt
+	if !blank(x.Key) {
+		head = append(head, &ast.AssignStmt{Lhs: []ast.Expr{x.Key}, Tok: x.Tok, Rhs: []ast.Expr{kv}})
+	}
+	val := x.Value
+	if blank(val) {
+		val = id("_")
+	}
+	head = append(head,
+		&ast.AssignStmt{Lhs: []ast.Expr{val, okv}, Tok: token.DEFINE, Rhs: []ast.Expr{&ast.IndexExpr{X: x.X, Index: kv}}},
+		&ast.IfStmt{Cond: &ast.UnaryExpr{Op: token.NOT, X: okv}, Body: &ast.BlockStmt{List: []ast.Stmt{&ast.BranchStmt{Tok: token.CONTINUE}}}})
+	if x.Tok == token.ASSIGN && !blank(x.Value) {
+		// `for k, v = range m`: keep assigning to the existing variable
+		tmp := id(fmt.Sprintf("_vsv%d", in.n))
+		head[len(head)-2] = &ast.AssignStmt{Lhs: []ast.Expr{tmp, okv}, Tok: token.DEFINE, Rhs: []ast.Expr{&ast.IndexExpr{X: x.X, Index: kv}}}
+		head = append(head, &ast.AssignStmt{Lhs: []ast.Expr{x.Value}, Tok: token.ASSIGN, Rhs: []ast.Expr{tmp}})
+	}
+	x.Body.List = append(head, x.Body.List...)
+	x.X = vs("SortedKeys", x.X)
+	x.Key, x.Value, x.Tok = id("_"), kv, token.DEFINE
 }
 
 func (in *inst) text(e ast.Expr) string {
@@ -400,6 +498,8 @@ func (in *inst) stmt(s ast.Stmt, depth int) (pre []ast.Stmt, res ast.Stmt, ndept
 		in.block(x.Body, depth)
 		if depth == 0 && in.chans[in.text(x.X)] {
 			x.Body.List = append([]ast.Stmt{in.yield("range")}, x.Body.List...)
+		} else if in.mapRange(x) {
+			in.sortMapRange(x) // also inside critical sections: it adds no scheduling point
 		}
 	case *ast.SwitchStmt:
 		in.clauses(x.Body, depth)
@@ -595,6 +695,7 @@ func Instrument(name string, src []byte) ([]byte, int, error) {
 		return nil, 0, err
 	}
 	in := &inst{fset: fset, chans: map[string]bool{}, wgs: map[string]bool{}}
+	in.info = typeInfo(fset, name, f)
 	in.scan(f)
 	for _, d := range f.Decls {
 		if fd, ok := d.(*ast.FuncDecl); ok && fd.Body != nil {
